@@ -117,7 +117,8 @@ def child_env(home=None, extra=None):
     env = dict(os.environ)
     env["HOME"] = home or home_dir()
     env["PYTHONHASHSEED"] = "0"
-    env["PYTHONPATH"] = os.pathsep.join([VERIF, DEPS] + ([env["PYTHONPATH"]] if env.get("PYTHONPATH") else []))
+    # REPO first: the tree under test is imported from there even when the interpreter's editable install points elsewhere
+    env["PYTHONPATH"] = os.pathsep.join([VERIF, DEPS, REPO] + ([env["PYTHONPATH"]] if env.get("PYTHONPATH") else []))
     env["MPLBACKEND"] = "Agg"
     env["OMP_NUM_THREADS"] = "1"
     env["OPENBLAS_NUM_THREADS"] = "1"
